@@ -75,6 +75,24 @@ static void check_partitions(NifFile& nif, NiShape* shape, int ver, const std::v
 			}
 			if (weightsDyadic)
 				sym_assert(sum == 1.0f || sum == 0.0f, "C10-weight-sum: vertex weights neither sum to one nor are all zero");
+			// every weighted slot names a bone that really weights this vertex in the skin data, and every bone that
+			// weights the vertex (at most four) has a slot
+			uint16_t vtx = p.vertexMap[i];
+			unsigned slots = 0;
+			for (int k = 0; k < 4; k++) {
+				if (!(w[k] > 0.0f) || !(b[k] < p.numBones) || !(p.bones[b[k]] < sd->bones.size()))
+					continue;
+				slots++;
+				bool weighted = false;
+				for (auto& sw : sd->bones[p.bones[b[k]]].vertexWeights)
+					weighted |= (sw.index == vtx && sw.weight > 0.0f);
+				sym_assert(weighted, "C10-bone-wrong: a partition bone slot names a bone that does not weight this vertex");
+			}
+			unsigned influences = 0;
+			for (auto& bd : sd->bones)
+				for (auto& sw : bd.vertexWeights)
+					influences += (sw.index == vtx && sw.weight > 0.0f) ? 1 : 0;
+			sym_assert(slots == (influences > 4 ? 4u : influences), "C10-bone-missing: a bone weighting this vertex has no slot in the partition");
 		}
 		for (auto bn : p.bones)
 			sym_assert(bn < sd->bones.size(), "C10-bone-range: partition bone index beyond the skin's bone list");
@@ -120,6 +138,26 @@ static NiShape* build_skinned(NifFile& nif, int ver, int nv, std::vector<Triangl
 	return shape;
 }
 
+// every triangle stays in a partition carrying the body part (dismember partID) of the label it was given
+static void check_bodyparts(NifFile& nif, NiShape* shape, const std::vector<Triangle>& labelled, const std::vector<int>& labels,
+							NiVector<BSDismemberSkinInstance::PartitionInfo>& pinfo) {
+	auto bsd = nif.GetHeader().GetBlock<BSDismemberSkinInstance>(shape->SkinInstanceRef());
+	if (!bsd)
+		return;
+	NiVector<BSDismemberSkinInstance::PartitionInfo> pinfo2;
+	std::vector<int> tp2;
+	nif.GetShapePartitions(shape, pinfo2, tp2);
+	std::vector<Triangle> cur;
+	shape->GetTriangles(cur);
+	for (size_t i = 0; i < labelled.size() && i < labels.size(); i++) {
+		if (labels[i] < 0 || labels[i] >= (int) pinfo.size())
+			continue;
+		for (size_t j = 0; j < cur.size() && j < tp2.size(); j++)
+			if (same_tri(rot(labelled[i]), rot(cur[j])) && tp2[j] >= 0 && tp2[j] < (int) pinfo2.size())
+				sym_assert(pinfo2[tp2[j]].partID == pinfo[labels[i]].partID, "C10-bodypart: a triangle ended up in a partition with another body part than the one it was assigned to");
+	}
+}
+
 // (a) symbolic triangle corners + symbolic partition assignment, concrete dyadic weights
 extern "C" void h_parts(int ver, int nv, int nt, int nb, int nparts) {
 	NifFile nif;
@@ -154,10 +192,12 @@ extern "C" void h_parts(int ver, int nv, int nt, int nb, int nparts) {
 		sym_assume(p >= -1 && p <= nparts); // -1 = unassigned, nparts = out of range by one
 		triParts[i] = p;
 	}
+	std::vector<Triangle> labelledTris = shapeTris;
 	nif.SetShapePartitions(shape, pinfo, triParts);
 	nif.UpdateSkinPartitions(shape);
 	shape->GetTriangles(shapeTris);
 	check_partitions(nif, shape, ver, shapeTris, true);
+	check_bodyparts(nif, shape, labelledTris, triParts, pinfo);
 	// the labelling read back partitions the triangles
 	NiVector<BSDismemberSkinInstance::PartitionInfo> pinfo2;
 	std::vector<int> tp2;
@@ -165,6 +205,20 @@ extern "C" void h_parts(int ver, int nv, int nt, int nb, int nparts) {
 	sym_assert(tp2.size() == shapeTris.size(), "C10-triparts-size: triangle-to-partition list has the wrong length");
 	for (auto p : tp2)
 		sym_assert(p >= 0 && p < (int) pinfo2.size(), "C10-triparts-range: a triangle is assigned to no existing partition after rebuilding");
+	// a triangle added after the partitions were built must be covered after the next rebuild
+	if (nv >= 4) {
+		std::vector<Triangle> more = shapeTris;
+		Triangle extra((uint16_t) sym_u16("p"), (uint16_t) sym_u16("p"), (uint16_t) sym_u16("p"));
+		sym_assume(extra.p1 < nv && extra.p2 < nv && extra.p3 < nv && extra.p1 != extra.p2 && extra.p2 != extra.p3 && extra.p1 != extra.p3);
+		for (auto& t : more)
+			sym_assume(!same_tri(rot(extra), rot(t)));
+		more.push_back(extra);
+		shape->SetTriangles(more);
+		nif.UpdateSkinPartitions(shape);
+		shape->GetTriangles(shapeTris);
+		sym_assert(shapeTris.size() == more.size(), "C10-addtri: triangle count after SetTriangles");
+		check_partitions(nif, shape, ver, shapeTris, true);
+	}
 	// remove empty partitions, default partition
 	nif.RemoveEmptyPartitions(shape);
 	shape->GetTriangles(shapeTris);
@@ -215,10 +269,14 @@ extern "C" void h_split(int ver, int interleave) {
 		triParts[i] = p;
 	}
 	(void) interleave;
+	pinfo[0].partID = 31;
+	pinfo[1].partID = 37;
+	std::vector<Triangle> labelledTris = shapeTris;
 	nif.SetShapePartitions(shape, pinfo, triParts);
 	nif.UpdateSkinPartitions(shape);
 	shape->GetTriangles(shapeTris);
 	check_partitions(nif, shape, ver, shapeTris, true);
+	check_bodyparts(nif, shape, labelledTris, triParts, pinfo);
 	sym_reach("end");
 }
 
